@@ -26,12 +26,14 @@ func TestMain(m *testing.M) { vfx.Main(m) }
 // When an answer arrives, relative to the probe: "early" < ProbeTimeout,
 // "mid" between ProbeTimeout and the probe deadline, "late" after the deadline.
 type Probe struct {
-	Direct   string   // none | early | mid | late
-	Relay    []string // per helper: none | mid | late | wrongseq
-	Nack     []bool   // per helper: send a nack at ProbeTimeout + a bit (if one was requested)
-	TCP      string   // refuse | stall | right | wrong | late | garbage
-	Noise    []Noise
-	DupAck   bool // a valid ack is delivered twice
+	Direct    string   // none | early | mid | late
+	Relay     []string // per helper: none | mid | late | wrongseq
+	Nack      []bool   // per helper: send a nack at ProbeTimeout + a bit (if one was requested)
+	NackDup   []int    // per helper: that many extra copies of its nack (network duplication)
+	NackThird int      // nacks carrying this probe's number sent by a stranger
+	TCP       string   // refuse | stall | right | wrong | late | garbage
+	Noise     []Noise
+	DupAck    bool // a valid ack is delivered twice
 }
 
 type Noise struct {
@@ -64,7 +66,9 @@ func genPlan(t *rapid.T) Plan {
 		for i := 0; i < p.Helpers; i++ {
 			pr.Relay = append(pr.Relay, rapid.SampledFrom([]string{"none", "none", "mid", "late", "wrongseq"}).Draw(t, "relay"))
 			pr.Nack = append(pr.Nack, rapid.Bool().Draw(t, "nack"))
+			pr.NackDup = append(pr.NackDup, rapid.SampledFrom([]int{0, 0, 0, 1, 3}).Draw(t, "nackdup"))
 		}
+		pr.NackThird = rapid.SampledFrom([]int{0, 0, 0, 1, 2}).Draw(t, "nackthird")
 		pr.Noise = rapid.SliceOfN(rapid.Custom(func(t *rapid.T) Noise {
 			return Noise{Kind: rapid.SampledFrom([]string{"ack", "ack", "nack"}).Draw(t, "nk"), Seq: rapid.SampledFrom([]string{"unknown", "previous", "helper", "zero", "max"}).Draw(t, "ns"),
 				When: rapid.SampledFrom([]string{"early", "mid", "late"}).Draw(t, "nw"), From: rapid.SampledFrom([]string{"subject", "helper", "stranger"}).Draw(t, "nf")}
@@ -121,10 +125,11 @@ func run(pl Plan) (res vfx.Result) {
 	stranger := p.Net.NewEndpoint("10.0.0.99", 7946, nil2{})
 
 	var mu sync.Mutex
-	probeIdx := -1             // index of the current probe of x
-	var probeSeq uint32        // its sequence number
-	var probeAt time.Duration  // its send instant
+	probeIdx := -1            // index of the current probe of x
+	var probeSeq uint32       // its sequence number
+	var probeAt time.Duration // its send instant
 	var prevSeq, helperSeq uint32
+	var helperProbes []time.Duration
 	modelScore := 0
 	type obs struct {
 		idx      int
@@ -140,6 +145,10 @@ func run(pl Plan) (res vfx.Result) {
 		route         string
 		expectedNacks int
 		gotNacks      int
+		extraNacks    int
+		scoreBefore   int
+		boundsErr     error
+		extraSeen     bool
 		scoreAfter    int
 		tcpOn         bool
 	}
@@ -170,6 +179,7 @@ func run(pl Plan) (res vfx.Result) {
 				if v.Node == h.Name && v.SourceNode == "n0" {
 					mu.Lock()
 					helperSeq = v.SeqNo
+					helperProbes = append(helperProbes, p.Net.Now())
 					// a helper answers at once: that probe succeeds and improves the health score
 					if modelScore > 0 {
 						modelScore--
@@ -201,6 +211,9 @@ func run(pl Plan) (res vfx.Result) {
 				}
 				if pr.Nack[hi] && v.Nack {
 					sendNack(h.EP, o.seq, T+T/2-since)
+					for d := 0; d < pr.NackDup[hi]; d++ {
+						sendNack(h.EP, o.seq, T+T/2-since+time.Duration(d+1)*time.Millisecond)
+					}
 				}
 				return true
 			}
@@ -261,14 +274,17 @@ func run(pl Plan) (res vfx.Result) {
 					}
 				}
 			}
+			extra := pr.NackThird
 			for hi := range o.asked {
 				if o.nackReq[hi] {
 					o.expectedNacks++
 					if pr.Nack[hi] {
 						o.gotNacks++
+						extra += pr.NackDup[hi]
 					}
 				}
 			}
+			o.extraNacks = extra
 			delta := -1
 			if !o.answered {
 				if o.expectedNacks > 0 {
@@ -276,6 +292,24 @@ func run(pl Plan) (res vfx.Result) {
 				} else {
 					delta = 1
 				}
+			}
+			o.scoreBefore = modelScore
+			if o.extraNacks > 0 && !o.answered && o.expectedNacks > 0 {
+				// duplicated / third-party nacks: how they are counted is not specified, but a failed probe
+				// never improves the score and never costs more than the expected number of nacks. The node has
+				// applied its verdict at the deadline, a moment ago: read it, check the bounds, follow it.
+				obs := p.M.GetHealthScore()
+				lo, hi := modelScore, modelScore+o.expectedNacks
+				if hi > pl.AwMax-1 {
+					hi = pl.AwMax - 1
+				}
+				if obs < lo {
+					o.boundsErr = fmt.Errorf("the probe FAILED (%d extra nacks, %d expected, %d genuine), yet the health score fell from %d to %d: a failed probe must never improve the score", o.extraNacks, o.expectedNacks, o.gotNacks, lo, obs)
+				} else if obs > hi {
+					o.boundsErr = fmt.Errorf("the probe failed: health went from %d to %d, more than the %d expected nacks allow", lo, obs, o.expectedNacks)
+				}
+				o.extraSeen = true
+				delta = obs - modelScore
 			}
 			modelScore += delta
 			if modelScore < 0 {
@@ -304,6 +338,9 @@ func run(pl Plan) (res vfx.Result) {
 			if pr.DupAck {
 				sendAck(x.EP, pg.SeqNo, when(pr.Direct, scaled)-2*lat+5*time.Millisecond)
 			}
+		}
+		for d := 0; d < pr.NackThird; d++ {
+			sendNack(stranger, pg.SeqNo, T+T/3+time.Duration(d)*time.Millisecond)
 		}
 		for _, nz := range pr.Noise {
 			var seq uint32
@@ -360,7 +397,9 @@ func run(pl Plan) (res vfx.Result) {
 			return
 		}
 		seq := sm.V.(*wire.Ping).SeqNo
-		reply := func(s uint32) { _, _ = c.Write(p.StreamFrameWith(wire.Encode(wire.AckRespMsg, &wire.Ack{SeqNo: s}), false, nil, 1, "", false)) }
+		reply := func(s uint32) {
+			_, _ = c.Write(p.StreamFrameWith(wire.Encode(wire.AckRespMsg, &wire.Ack{SeqNo: s}), false, nil, 1, "", false))
+		}
 		since := p.Net.Now() - o.at
 		switch pr.TCP {
 		case "right":
@@ -427,7 +466,7 @@ func run(pl Plan) (res vfx.Result) {
 		asked := len(o.asked)
 		expectedNacks, gotNacks := o.expectedNacks, o.gotNacks
 		tcpDial := o.tcpDial
-		answered, route, ms, tcpOn, fin := o.answered, o.route, modelScore, o.tcpOn, o.done
+		answered, route, tcpOn, fin := o.answered, o.route, o.tcpOn, o.done
 		mu.Unlock()
 		if !fin {
 			return fail("probe %d: model verdict not available at %v", i, p.Net.Now())
@@ -450,6 +489,24 @@ func run(pl Plan) (res vfx.Result) {
 		lab := fmt.Sprintf("route:%s", route)
 		labels[lab] = true
 		logf("probe %d at %v seq %d scaled %v: %+v -> answered=%v (%s), node says suspect=%v, health %d", i, o.at, o.seq, scaled, pr, answered, route, suspect, p.M.GetHealthScore())
+		checkHealth := func() error {
+			hs := p.M.GetHealthScore()
+			mu.Lock()
+			berr, seen := o.boundsErr, o.extraSeen
+			cur := modelScore
+			mu.Unlock()
+			if berr != nil {
+				return fmt.Errorf("probe %d: %v\n%v", i, berr, hist)
+			}
+			if seen {
+				labels["extra-nacks-on-failed-probe"] = true
+				res.NonTrivial = true
+			}
+			if hs != cur {
+				return fmt.Errorf("probe %d: health score %d, model %d (answered=%v expected nacks %d received %d)\n%v", i, hs, cur, answered, expectedNacks, gotNacks, hist)
+			}
+			return nil
+		}
 		// a probe that began before our refutation of the previous failure was injected concerns the old
 		// incarnation: its failure is (rightly) ignored as stale
 		overlapped := prevFailed && prevDeadline >= 0 && o.at < prevDeadline+25*time.Millisecond
@@ -464,9 +521,8 @@ func run(pl Plan) (res vfx.Result) {
 			if suspect {
 				p.Inject(x.Addr(), [][]byte{puppet.Claim{Kind: "alive", Node: "x", Inc: d["x"].Inc + 1, Addr: net.ParseIP("10.0.0.50").To4(), Port: 7946, Vsn: x.Vsn}.Leaf()}, puppet.Carrier{})
 			}
-			hs0 := p.M.GetHealthScore()
-			if hs0 != ms {
-				return fail("probe %d: health score %d, model %d\n%v", i, hs0, ms, hist)
+			if err := checkHealth(); err != nil {
+				return fail("%v", err)
 			}
 			continue
 		}
@@ -482,8 +538,8 @@ func run(pl Plan) (res vfx.Result) {
 		if hs < 0 || hs > pl.AwMax-1 {
 			return fail("health score %d outside [0,%d]", hs, pl.AwMax-1)
 		}
-		if hs != ms {
-			return fail("probe %d: health score %d, model %d (answered=%v expected nacks %d received %d)\n%v", i, hs, ms, answered, expectedNacks, gotNacks, hist)
+		if err := checkHealth(); err != nil {
+			return fail("%v", err)
 		}
 		if len(pr.Noise) > 0 || pr.DupAck || pr.Direct == "late" || contains(pr.Relay, "late") || contains(pr.Relay, "wrongseq") || pr.TCP == "wrong" || pr.TCP == "late" {
 			res.NonTrivial = true
@@ -501,7 +557,7 @@ func run(pl Plan) (res vfx.Result) {
 
 type nil2 struct{}
 
-func (nil2) OnPacket(*simnet.Endpoint, string, []byte)              {}
+func (nil2) OnPacket(*simnet.Endpoint, string, []byte)             {}
 func (nil2) OnStream(_ *simnet.Endpoint, _ string, c *simnet.Conn) { c.Close() }
 
 func contains(s []string, x string) bool {
